@@ -10,6 +10,7 @@ from __future__ import annotations
 import itertools
 import os
 
+from . import common
 from .common import Check, fmt_ints, fmt_matrix, kv
 
 THEOREMS = [
@@ -548,5 +549,17 @@ def check(ck: Check) -> None:
         "all 12^6 = 2,985,984 day-wise consistent four-team double round-robin plans x 6 settings in the thorough tier "
         "(seeded 2 % slice x 4 settings in quick): kernel value = model value, value = 0 <=> Lean FeasiblePlan, "
         "0 <= value, value <= upper bound inside the proved class")
-    ck.lean(["Props.C07"], THEOREMS)
+    modules, theorems = ["Props.C07"], list(THEOREMS)
+    # tie between source and model: lean/Gen/CountErrors.lean is regenerated from the CURRENT source of count_errors and
+    # Props/C07Gen.lean proves it equal to the hand-written model `TtpErrors.countErrors?` for all inputs
+    try:
+        from .translate import loop2lean
+        ck.gen_begin()   # released at the end of ck.lean
+        loop2lean.emit_count_errors(common.REPO, common.LEAN)
+        modules.append("Props.C07Gen")
+        theorems.append("C07Gen.count_errors_eq_model")
+    except Exception as e:  # noqa: BLE001 - source outside the translatable subset: the obligation cannot be regenerated
+        ck.proof_failures.append(f"translator loop2lean: count_errors is not translatable, the theorem "
+                                 f"C07Gen.count_errors_eq_model could not be re-checked against the source: {e!r}")
+    ck.lean(modules, theorems)
     streams(ck)
